@@ -74,6 +74,10 @@ func runOcspWalk(c *vk.Ctx, cfg OcspCfg, walk []*graph.Edge, seed int64, preds .
 			// conformance
 			if real.Verdict != exp.Verdict {
 				c.Drift("ocsp-verdict:" + exp.Verdict + "->" + real.Verdict)
+				if os.Getenv("VERIF_DEBUG") != "" {
+					b, _ := json.Marshal(hist)
+					fmt.Fprintf(os.Stderr, "DRIFT ocsp-verdict cfg=%s hist=%s\n", cfg.Key(), b)
+				}
 				return
 			}
 			if (exp.Served == "cache") != (len(real.Contacted) == 0 && len(exp.Contacted) == 0 && exp.Served == "cache") {
@@ -93,6 +97,10 @@ func runOcspWalk(c *vk.Ctx, cfg OcspCfg, walk []*graph.Edge, seed int64, preds .
 			}
 			if fmt.Sprint(real.Contacted) != fmt.Sprint(expVisible) && !(len(real.Contacted) == 0 && len(expVisible) == 0) {
 				c.Drift("ocsp-contacted")
+				if os.Getenv("VERIF_DEBUG") != "" {
+					b, _ := json.Marshal(hist)
+					fmt.Fprintf(os.Stderr, "DRIFT ocsp-contacted cfg=%s hist=%s\n", cfg.Key(), b)
+				}
 				if exp.Served == "cache" || len(real.Contacted) == 0 {
 					return
 				}
@@ -233,16 +241,21 @@ func C02(c *vk.Ctx) {
 	}
 	hgs, hres := exportHubGraphs(c, hcfgs, nil, 2)
 	c.Add("hub_states", hres.Distinct)
+	hubWalks := 0
 	for ci, g := range hgs {
 		trans += int64(len(g.Edges))
 		pg := pruneDown(g, 0, rng)
 		pg.AllPaths(2, func(p []*graph.Edge) {
-			if len(p) != 2 || c.Violations() > 6 {
+			if len(p) != 2 || c.Violations() > 6 || opName(p[1]) == "cleanup" {
 				return
 			}
+			hubWalks++
 			runHubWalk(c, hcfgs[ci], append([]*graph.Edge(nil), p...), RandomShape(rng), c.Seed*50021+int64(walks), predC02hub)
 			walks++
 		})
+	}
+	if hubWalks < 24*10 {
+		c.Infra("the validator-level part was replayed on %d cells only: it would be vacuous", hubWalks)
 	}
 	c.Set("transitions", trans)
 	c.Set("traces_validated_against_impl", int64(walks))
@@ -313,6 +326,19 @@ func C05(c *vk.Ctx) {
 			}
 		}
 	}
+	// histories: an answer that does not count leaves no memory; whatever the responder said before, the authentic answer it gives
+	// at the next handshake decides
+	for _, strict := range []bool{false, true} {
+		for _, dur := range []int{0, 2} {
+			for _, cl := range c05NoAnswer {
+				for _, then := range []string{"revoked", "good"} {
+					sw := ocspCfg(strict, dur, "absent", []string{cl}, nil)
+					sw.Alt = map[string][]string{"cA": {then}, "cB": {}}
+					cfgs = append(cfgs, sw)
+				}
+			}
+		}
+	}
 	gs, res := exportOcspGraphs(c, cfgs, 0, 3, "absolute", "issuer")
 	c.Set("states", res.Distinct)
 	var trans int64
@@ -320,6 +346,15 @@ func C05(c *vk.Ctx) {
 	for i, g := range gs {
 		trans += int64(len(g.Edges))
 		cfg := cfgs[i]
+		// an "errStatus" responder is tried with each of the five error statuses as its first answer
+		rounds := 1
+		for _, l := range [][]string{cfg.Lists["cA"], cfg.Alt["cA"]} {
+			for _, cl := range l {
+				if cl == "errStatus" {
+					rounds = len(ocspErrCodes)
+				}
+			}
+		}
 		depth := 2
 		if cfg.Alt != nil {
 			depth = 3
@@ -338,8 +373,10 @@ func C05(c *vk.Ctx) {
 			if cfg.Alt != nil && opName(p[1]) != "switch" {
 				return
 			}
-			runOcspWalk(c, cfg, append([]*graph.Edge(nil), p...), c.Seed*104729+int64(walks), predC05)
-			walks++
+			for r := 0; r < rounds; r++ {
+				runOcspWalk(c, cfg, append([]*graph.Edge(nil), p...), (c.Seed*104729+int64(walks))*5+int64(r), predC05)
+				walks++
+			}
 		})
 		if i%60 == 0 {
 			c.Sample(map[string]any{"cfg": cfg})
@@ -350,7 +387,32 @@ func C05(c *vk.Ctx) {
 	c.Set("traces_validated_against_impl", int64(walks))
 	c.Set("spec", "Ocsp.tla: Counts(class) is the requirement (successful response, signed by the issuer or by a responder the issuer authorised for OCSP signing, about exactly this serial); OnlyCounted proved for single responders of every class and for every uncounted class followed by an authentic good / revoked / delegated answer, strict x cache duration")
 	c.Set("rule", "a case is (responder list, strict, cache duration, two queries) on real checkers; unauthentic responders claim the status that would flip the verdict if believed; violation iff the verdict differs from the specification's or such an answer is cached; plus byte mutations of an authentic response inside tbsResponseData / signature which must turn it into no answer")
-	c.Assume("signers: issuer, issuer-delegated responder with and without the OCSPSigning EKU, the client's own certificate, a self-signed stranger with and without embedded certificate, a sibling CA with the issuer's name and key identifier; error statuses malformed/internalError/tryLater/sigRequired/unauthorized by seed")
+	c.Assume("signers: issuer, issuer-delegated responder with and without the OCSPSigning EKU, the client's own certificate, a self-signed stranger with and without embedded certificate, a sibling CA with the issuer's name and key identifier; every error status (malformedRequest, internalError, tryLater, sigRequired, unauthorized) as the first answer of an error-status responder; responders that stand for real software decode the request and answer only a well-formed request naming the certificate")
+}
+
+// pathByOps follows the edges whose operation equals the given ones, from the initial state; nil if some step has no such edge.
+func pathByOps(g *graph.Graph, ops [][]any) []*graph.Edge {
+	cur := g.Init
+	var out []*graph.Edge
+	for _, want := range ops {
+		wb, _ := json.Marshal(want)
+		var next *graph.Edge
+		for _, e := range g.Out[cur] {
+			var op []any
+			json.Unmarshal(e.Op, &op)
+			ob, _ := json.Marshal(op)
+			if string(ob) == string(wb) {
+				next = e
+				break
+			}
+		}
+		if next == nil {
+			return nil
+		}
+		out = append(out, next)
+		cur = next.To
+	}
+	return out
 }
 
 // ---- C14 ---------------------------------------------------------------------------------------
@@ -470,6 +532,38 @@ func C14(c *vk.Ctx) {
 			walks++
 			if wi == 0 {
 				c.Sample(map[string]any{"cfg": timed[i], "ops": opsOf(w, 8)})
+			}
+		}
+	}
+	// histories in which the responder stops answering after the entry was cached: once the lifetime is over every query has to
+	// ask again, a failed query leaves nothing behind that a later one could be answered from
+	var sw []OcspCfg
+	for _, then := range []string{"http500", "errStatus", "garbage", "wrongContent"} {
+		cfg := mk("absent", []string{"good"}, []string{"good"}, 2, 2)
+		cfg.Alt = map[string][]string{"cA": {then}, "cB": {"good"}}
+		sw = append(sw, cfg)
+	}
+	gsw, ressw := exportOcspGraphs(c, sw, 4, 6, "absolute", "issuer")
+	c.Add("states", ressw.Distinct)
+	q := func(v string) []any { return []any{"query", v, "cA"} }
+	tick, swOp := []any{"tick"}, []any{"switch", "cA"}
+	for i, g := range gsw {
+		trans += int64(len(g.Edges))
+		for _, v := range []string{"v1", "v2"} {
+			for _, ops := range [][][]any{
+				// the entry is left alone until its lifetime is over
+				{q(v), tick, tick, tick, swOp, q(v), q(v), q(v)},
+				// the entry is read in every time unit (which keeps it in the table) until its lifetime is over
+				{q(v), tick, q(v), tick, swOp, q(v), q(v), q(v)},
+				{q(v), tick, q(v), tick, q(v), swOp, tick, q(v), q(v)},
+			} {
+				w := pathByOps(g, ops)
+				if w == nil {
+					c.Drift("c14-switch-history-not-in-graph")
+					continue
+				}
+				runOcspWalk(c, sw[i], w, c.Seed*613+int64(walks), predC14)
+				walks++
 			}
 		}
 	}
